@@ -117,12 +117,8 @@ def run_oracle(case):
         # frame rule for annotations: no operation deletes an annotation, except remove_variable those of the variable
         # removed (its subject); transfer_cmeta_id moves them to the new subject; only 'triple' adds one
         now = list(im.model.rdf)
-        gone = [t for t in before if t not in now]
-        if op[0] == 'rmvar' and removed is not None and r[0] == 'ok':
-            gone = [t for t in gone if t[0] != ident]
-        if op[0] == 'transfer':
-            po = sorted((str(t[1]), str(t[2])) for t in before)
-            gone = [] if po == sorted((str(t[1]), str(t[2])) for t in now) else gone
+        gone = msm.annotations_lost(before, now, op, ident if (removed is not None and r[0] == 'ok') else None) \
+            if not (op[0] == 'rmvar' and (removed is None or r[0] != 'ok')) else [t for t in before if t not in now]
         if gone:
             bad.append(('%s deleted annotation(s) that do not belong to a removed variable: %s'
                         % (op, [tuple(str(x) for x in t) for t in gone[:3]]), {'op_index': j}))
